@@ -183,6 +183,53 @@ def main():
         rep["samples"] = ["KmerGenerator('ACNug', 2) vs core", "MinimiserGenerator('CCCCA', 4, 2) vs core",
                           "CgrComputer(16).vectorise_one('ACNG') must raise ValueError (core: Err)",
                           "KmerGenerator('Aéc', 1): non-ASCII bytes act as ambiguous"]
+    elif mode in ("bigbatch", "hugebatch"):
+        # the TOTAL size of one batch is an input dimension of its own: batches whose sequences add up to more than
+        # 2^28 (bigbatch) and 2^32 (hugebatch) bases, in three shapes (many small, some medium, few large records);
+        # oracle = vectorise_one of each distinct record, in argument order
+        import hashlib
+        def dna(n, seed):
+            out = bytearray()
+            i = 0
+            while len(out) < n:
+                out += hashlib.sha256(b"%d:%d" % (seed, i)).digest()
+                i += 1
+            return bytes(out[:n]).translate(bytes(b"ACGT"[b & 3] for b in range(256))).decode()
+        target = (1 << 28) if mode == "bigbatch" else (1 << 32)
+        shapes = [(1000, "many small"), (1 << 20, "medium"), (target // 5 + 11, "few large")] if mode == "bigbatch" else [(1 << 26, "large")]
+        oc = pk.OligoComputer(2)
+        for base_len, label in shapes:
+            distinct = [dna(base_len + j, 1000 + j) for j in range(7)]
+            exp7 = [oc.vectorise_one(s, False) for s in distinct]
+            if len(set(tuple(r) for r in exp7)) != 7:
+                raise SystemExit("big-batch generator fault: rows of the distinct records coincide")
+            batch, total = [], 0
+            while total <= target + 3 * base_len:
+                batch.append(distinct[len(batch) % 7])
+                total += len(batch[-1])
+            rep["evaluations"] += 1
+            try:
+                got = oc.vectorise_batch(batch, False)
+            except BaseException as e:  # noqa
+                viol("oligo-big-batch", len(batch), "OligoComputer(2).vectorise_batch of %d %s sequences (%d bases in all) raised %s: %s" % (len(batch), label, total, type(e).__name__, e))
+                continue
+            bad = None
+            if len(got) != len(batch):
+                bad = "%d rows for %d sequences" % (len(got), len(batch))
+            else:
+                for i, row in enumerate(got):
+                    if row != exp7[i % 7]:
+                        bad = "row %d is not vectorise_one of sequence %d" % (i, i)
+                        break
+            if bad:
+                viol("oligo-big-batch", len(batch), "OligoComputer(2).vectorise_batch of %d %s sequences (%d bases in all, norm=False): %s" % (len(batch), label, total, bad))
+            else:
+                rep["nontrivial"] += 1
+            count("big_batch_total_bases_max", 0)
+            rep["counters"]["big_batch_total_bases_max"] = max(rep["counters"]["big_batch_total_bases_max"], total)
+            del batch, got
+            gc.collect()
+        rep["samples"] = ["OligoComputer(2).vectorise_batch of sequences adding up to more than 2^28 bases == [vectorise_one(s) ...]"]
     else:
         # batches: exactly the per-item results in argument order, for every batch size
         seqs_pool = []
